@@ -333,6 +333,39 @@ def deep_checks(st, m, T, ent, elem, keys, ed, N, bad, out):
                     bad('doflocs-disagree', f"DOF {int(ed[l, c])}: location table says {dl[:, ed[l, c]].tolist()} but cell "
                         f"{c} maps its local DOF {l} to {loc[:, c, l].tolist()}")
                     break
+    # an explicitly passed mapping whose geometry differs from the mesh's default one (affine mapping on the curved
+    # second-order twin): the location table follows the basis' own mapping
+    if st.cls in ('MeshTri1', 'MeshTet1') and ent.wrapper in (None, 'vector', 'dg') and len(st.hist) == 1:
+        try:
+            import skfem
+            from skfem.mapping import MappingAffine
+            from dataclasses import replace as _replace
+            m2 = getattr(skfem, {'MeshTri1': 'MeshTri2', 'MeshTet1': 'MeshTet2'}[st.cls]).from_mesh(m)
+            p2 = m2.doflocs.copy()
+            nv_ = int(m2.t.max()) + 1
+            for k_ in range(nv_, p2.shape[1]):
+                p2[:, k_] += np.array([1 / 32, -1 / 64, 1 / 64][:p2.shape[0]]) * (1 if k_ % 2 else -.5)
+            m2 = _replace(m2, doflocs=p2)
+            mpa = MappingAffine(m2)
+            with warnings.catch_warnings():
+                warnings.simplefilter('ignore')
+                b2 = CellBasis(m2, ent.make(), mapping=mpa, intorder=1)
+            dl2 = getattr(b2, 'doflocs', None)
+            if dl2 is not None:
+                loc2 = mpa.F(b2.elem.doflocs.T)
+                if loc2.shape[2] == b2.element_dofs.shape[0]:
+                    out.ev()
+                    for l in range(b2.element_dofs.shape[0]):
+                        d = np.abs(dl2[:, b2.element_dofs[l]] - loc2[:, :, l])
+                        if np.isfinite(d).any() and np.nanmax(d) > 1e-12:
+                            bad('doflocs-explicit-mapping', f"CellBasis(curved {type(m2).__name__}, mapping=MappingAffine): the DOF location "
+                                f"table differs from the basis' own mapping applied to the reference locations by {np.nanmax(d):.3e} "
+                                f"(local DOF {l})")
+                            break
+        except NotImplementedError:
+            pass
+        except Exception as e:
+            out.count(f'explicit_mapping_variant_unsupported:{ent.name}:{type(e).__name__}')
     # matrices: shape and pattern == co-occurrence in integrated cells
     ones = BilinearForm(lambda *a: 1.0 + 0. * a[-1].x[0])
 
